@@ -393,13 +393,13 @@ fn format(opt: opt::Opt) -> Result<i32> {
                         };
                     }
                     FormatResult::Diff(diff) => {
-                        if EXIT_CODE.load(Ordering::SeqCst) != 2 {
-                            #[cfg(stylua_verif)]
-                            verif_sched::point("diff-loaded");
-                            #[cfg(stylua_verif)]
-                            verif_sched::point("diff-store");
-                            EXIT_CODE.store(1, Ordering::SeqCst);
-                        }
+                        #[cfg(stylua_verif)]
+                        verif_sched::point("diff-loaded");
+                        #[cfg(stylua_verif)]
+                        verif_sched::point("diff-store");
+                        // Raise the exit code to 1, but never mask an error (2) reported by another thread:
+                        // a separate load and store would let an error logged in between be overwritten
+                        EXIT_CODE.fetch_max(1, Ordering::SeqCst);
                         #[cfg(stylua_verif)]
                         verif_sched::point("diff-done");
 
